@@ -5689,7 +5689,11 @@ def merge_parts(parts, reassign="voice"):
                     # assign based on the voice and staff mappings
                     if isinstance(e, GenericNote):
                         # new voice is computed as the sum of voices in staves in previous parts, plus the current
-                        e.voice = voice_mapping[e.voice]
+                        if e.voice is not None and e.voice not in voice_mapping:
+                            # a voice that holds only rests gets the next free voice
+                            n_previous_voices += 1
+                            voice_mapping[e.voice] = n_previous_voices
+                        e.voice = voice_mapping.get(e.voice)
                     if isinstance(e, (GenericNote, Words, Direction, Clef)):
                         e.staff = staff_mapping.get(
                             e.staff if e.staff is not None else 0,
